@@ -30,7 +30,7 @@ class Ctx:
         o = {"rule": rule, "key": "%s:%s" % (rule, key), "status": st, "site": site, "why": why,
              "nontrivial": bool(nontrivial)}
         if construct is not None:
-            o["construct"] = construct
+            o["construct"] = _jsonable(construct)
         self.obls.append(o)
         return ok is True
 
@@ -55,6 +55,21 @@ class Ctx:
     def site(self, body, node=None):
         line = (node or {}).get("line") or body.get("line")
         return "%s:%s (%s)" % (body.get("file"), line, body.get("def_path"))
+
+
+def _jsonable(x, depth=0):
+    """terms handed over as `construct` may hold sets (unordered facts) or exotic keys: make them plain JSON, in a stable order"""
+    if depth > 60:
+        return repr(x)[:200]
+    if isinstance(x, (frozenset, set)):
+        return sorted((_jsonable(y, depth + 1) for y in x), key=repr)
+    if isinstance(x, (tuple, list)):
+        return [_jsonable(y, depth + 1) for y in x]
+    if isinstance(x, dict):
+        return {str(k): _jsonable(v, depth + 1) for k, v in x.items()}
+    if isinstance(x, (str, int, float, bool)) or x is None:
+        return x
+    return repr(x)[:200]
 
 
 def load_known():
